@@ -45,7 +45,9 @@ Section Inv.
   Record GI (fut : list id) (s : rst) : Prop := {
     G_good : good strict (r_tr s);
     G_rl : RL s;
-    G_cache : forall o, In o (r_cache s) -> calm o;
+    (* outside dry-run (no wait task otherwise): the cache entries about objects still to be waited for
+       are calm; what the apply-time mutator Put there is about objects whose wait is over *)
+    G_cache : is_dry (o_dry (sc_opts sc)) = false -> forall o, In o (r_cache s) -> In (s_id o) fut -> calm o;
     G_nw : forall j, In j fut -> lw (r_tr s) j = None;
     G_act : forall j st a u, tv s j = Some (st, a, u) ->
               (In j aids -> st = SApply /\ actm (la (r_tr s) j) a) /\
@@ -81,7 +83,9 @@ Section Inv.
   Lemma GI_result fut s s' i st a u gen e lt :
     GI fut s -> In i fut ->
     r_tbl s' = set_status Nat.eqb (r_tbl s) (mkRec i st a RPending u gen) -> a <> APending ->
-    r_tr s' = IEv e :: lt ++ r_tr s -> Forall plain lt -> r_cache s' = r_cache s ->
+    r_tr s' = IEv e :: lt ++ r_tr s -> Forall plain lt ->
+    (exists ex, r_cache s' = ex ++ r_cache s /\
+                (is_dry (o_dry (sc_opts sc)) = false -> forall o, In o ex -> ~ In (s_id o) fut)) ->
     ( (st = SApply /\ In i aids /\ exists g, e = EApply g i (ast_of a)) \/
       (st = SDelete /\ In i pds /\ o_prune (sc_opts sc) = true /\ exists g, e = EPrune g i (ast_of a)) ) ->
     GI fut s'.
@@ -101,7 +105,8 @@ Section Inv.
     - apply (RL_set_status s s' (mkRec i st a RPending u gen) (IEv e :: lt)); try assumption; try reflexivity.
       + intros j. constructor; [apply WE|]. eapply Forall_impl; [|exact F]. intros it P. apply P.
       + cbn [r_id]. apply G_nw0. exact Hi.
-    - rewrite EC. exact G_cache0.
+    - destruct EC as [ex [EC EX]]. rewrite EC. intros DR o Ho Hf. apply in_app_or in Ho.
+      destruct Ho as [Ho|Ho]; [exfalso; exact (EX DR o Ho Hf)|exact (G_cache0 DR o Ho Hf)].
     - intros j Hj. rewrite ETR, lw_cons_other by apply WE. rewrite lw_app_plain by exact F. apply G_nw0. exact Hj.
     - intros j st' a' u'. rewrite TV. destruct (Nat.eqb i j) eqn:E.
       + apply Nat.eqb_eq in E. subst j. intros [= <- <- <-]. rewrite LA.
@@ -120,13 +125,20 @@ Section Inv.
   Proof.
     unfold apply_task. induction layer as [|p t IH]; intros HL IN s H; cbn [fold_left]; [exact H|].
     inversion HL as [|? ? Hp Ht]; subst. apply IH; [exact Ht|intros x Hx; apply IN; right; exact Hx|].
-    destruct Hp as [l [EL [EI Ha]]].
+    destruct Hp as [l [EL [EI [Ha HG]]]].
     destruct (apply_one_spec sc pl g s p l EL EI) as [_ [a [u [gen [lt [ET [ETR [FS ALT]]]]]]]]. cbv zeta in *.
     apply (GI_result fut s _ (p_id p) SApply a u gen (EApply g (p_id p) (ast_of a)) lt); try assumption.
     - apply IN. left. reflexivity.
     - destruct ALT as [[[-> | ->] _]|[[-> _]|[-> _]]]; discriminate.
     - eapply Forall_snap2_shape; [|exact FS]. intros c it [r [ok [-> _]]]. apply plain_req.
-    - apply cache_apply_one.
+    - (* the sources the mutator Put into the cache passed the dependency filter: outside dry-run they are
+         reconciled, so their wait task is over *)
+      destruct (cache_apply_one sc pl g s p) as [ex [EC HX]]. exists ex. split; [exact EC|].
+      intros DR o Ho Hf. destruct (HX o Ho) as [l0 [EL0 [_ [HS [_ DF]]]]]. rewrite EL in EL0. injection EL0 as <-.
+      destruct (dep_filter_pass_rec sc pl _ _ _ DF (s_id o) (HG _ HS)) as [_ [r [Lr [_ [_ RS]]]]].
+      destruct RS as [X|RS]; [rewrite DR in X; discriminate|].
+      pose proof (G_rl _ _ H (s_id o) r Lr) as RR. rewrite RS in RR.
+      rewrite (G_nw _ _ H (s_id o) Hf) in RR. discriminate RR.
     - left. split; [reflexivity|]. split; [exact Ha|]. exists g. reflexivity.
   Qed.
 
@@ -142,7 +154,7 @@ Section Inv.
     - apply IN. left. reflexivity.
     - destruct ALT as [[[-> | ->] _]|[[-> _]|[[-> _]|[[-> _]|[[-> _]|[-> _]]]]]]; discriminate.
     - eapply snap_plain. exact FS.
-    - apply cache_prune_one.
+    - exists []. split; [apply cache_prune_one|intros _ o []].
     - right. split; [reflexivity|]. split; [|split; [exact PO|exists g; reflexivity]].
       unfold pids. apply in_map_iff. exists (pobj_of_live c). split; [reflexivity|exact Hc].
   Qed.
@@ -174,24 +186,25 @@ Section Inv.
       + subst a. reflexivity.
   Qed.
 
-  Lemma g_wait_task c g ids fut fut' s : NoDup ids -> wcond_ok c ids -> incl ids fut ->
+  Lemma g_wait_task c g ids fut fut' s : is_dry (o_dry (sc_opts sc)) = false -> NoDup ids -> wcond_ok c ids -> incl ids fut ->
     (forall j, In j fut' -> In j fut /\ ~ In j ids) ->
     GI fut s -> GI fut' (wait_task sc c g ids s).
   Proof.
-    intros ND WC IN FUT H.
-    assert (P : WP strict mode ids s (wait_task sc c g ids s)).
+    intros DR ND WC IN FUT H.
+    assert (P : WP strict mode ids s (fun i => In i fut) (wait_task sc c g ids s)).
     { apply (wp_wait_task sc strict mode c g ids s ND).
       - intros i Hi. apply (wsk_spec fut s c ids i H WC Hi).
       - intros i Hi. apply (G_reg _ _ H). apply (wcond_reg c ids i WC Hi).
+      - exact IN.
       - exact Hdel.
       - exact (G_good _ _ H).
       - exact (G_rl _ _ H).
-      - exact (G_cache _ _ H).
+      - exact (G_cache _ _ H DR).
       - intros i Hi. apply (G_nw _ _ H). apply IN. exact Hi. }
     destruct P. destruct H. constructor.
     - exact P_good.
     - exact P_rl.
-    - exact P_cache.
+    - intros _ o Ho Hf. apply (P_cache o Ho). exact (proj1 (FUT _ Hf)).
     - intros j Hj. destruct (FUT j Hj) as [A B]. rewrite (P_out j B). apply G_nw0. exact A.
     - intros j st a u. rewrite P_tv, P_la. apply G_act0.
     - intros j Hj. rewrite P_tv. apply G_reg0. exact Hj.
@@ -203,7 +216,8 @@ Section Inv.
     | [] => True
     | TApply _ l :: r => Forall (local_ok' pl) l /\ incl (hdw r) (map p_id l) /\ wsch r
     | TPrune _ l :: r => o_prune (sc_opts sc) = true /\ Forall (prune_ok pl) l /\ incl (hdw r) (map p_id l) /\ wsch r
-    | TWait _ c ids :: r => NoDup ids /\ (forall j, In j ids -> ~ In j (todo_of r)) /\ hdw r = [] /\
+    | TWait _ c ids :: r => is_dry (o_dry (sc_opts sc)) = false /\
+                           NoDup ids /\ (forall j, In j ids -> ~ In j (todo_of r)) /\ hdw r = [] /\
                            wcond_ok c ids /\ wsch r
     | _ :: r => hdw r = [] /\ wsch r
     end.
@@ -235,7 +249,7 @@ Section Inv.
       apply g_apply_task; [exact HL| |exact S0].
       unfold futof. cbn [todo_of flat_map]. intros x Hx. apply in_or_app. left. apply in_or_app. left. exact Hx.
     - (* wait *)
-      destruct SC as [ND [HD [HW [WC SC]]]]. split; [|exact SC]. cbn [fst]. apply FIN.
+      destruct SC as [DR [ND [HD [HW [WC SC]]]]]. split; [|exact SC]. cbn [fst]. apply FIN.
       apply (g_wait_task c (task_name (TWait k c ids)) ids (futof (TWait k c ids :: rest))); try assumption.
       + unfold futof. cbn [hdw]. intros x Hx. apply in_or_app. right. exact Hx.
       + unfold futof. rewrite HW, app_nil_r. cbn [todo_of flat_map hdw app]. intros j Hj.
@@ -294,7 +308,7 @@ Section Inv.
       by (intros; eapply HLy; [right; eassumption|assumption]).
     cbn [concat] in N. rewrite map_app, <- app_assoc in N.
     apply NoDup_app_elim in N. destruct N as [N1 [N2 D]].
-    destruct (is_dry (o_dry (sc_opts sc))).
+    destruct (is_dry (o_dry (sc_opts sc))) eqn:EDR.
     - pose proof (hdw_apply t tail (S ka) kw HT) as HH.
       specialize (IH Ht (S ka) kw tail N2 HT ST).
       destruct (apply_tasks sc (S ka) kw t) as [ts kw']. cbn [fst] in *.
@@ -303,10 +317,10 @@ Section Inv.
       pose proof (todo_apply_tasks sc t (S ka) (S kw)) as TD.
       specialize (IH Ht (S ka) (S kw) tail N2 HT ST).
       destruct (apply_tasks sc (S ka) (S kw) t) as [ts kw']. cbn [fst] in *.
-      cbn [app wsch hdw]. split; [exact Hl|]. split; [apply incl_refl|]. split; [exact N1|].
+      cbn [app wsch hdw]. split; [exact Hl|]. split; [apply incl_refl|]. split; [exact EDR|]. split; [exact N1|].
       split; [intros j Hj; rewrite todo_app, TD; apply D; exact Hj|]. split; [exact HH|]. split; [|exact IH].
       cbn [wcond_ok]. intros j Hj. apply in_map_iff in Hj. destruct Hj as [p [<- Hp]].
-      rewrite Forall_forall in Hl. destruct (Hl p Hp) as [l0 [_ [_ X]]]. exact X.
+      rewrite Forall_forall in Hl. destruct (Hl p Hp) as [l0 [_ [_ [X _]]]]. exact X.
   Qed.
 
   Lemma wsch_prune layers : o_prune (sc_opts sc) = true ->
@@ -323,10 +337,10 @@ Section Inv.
     apply NoDup_app_elim in N. destruct N as [N1 [N2 D]].
     pose proof (hdw_prune t tail (S kp) kw HT) as HH0.
     pose proof (hdw_prune t tail (S kp) (S kw) HT) as HH1.
-    destruct (is_dry (o_dry (sc_opts sc))).
+    destruct (is_dry (o_dry (sc_opts sc))) eqn:EDR.
     - cbn [app wsch]. split; [exact PO|]. split; [exact Hl|]. split; [rewrite HH0; intros x []|].
       apply IH; assumption.
-    - cbn [app wsch hdw]. split; [exact PO|]. split; [exact Hl|]. split; [apply incl_refl|]. split; [exact N1|].
+    - cbn [app wsch hdw]. split; [exact PO|]. split; [exact Hl|]. split; [apply incl_refl|]. split; [exact EDR|]. split; [exact N1|].
       split; [intros j Hj; rewrite todo_app, (todo_prune_tasks sc); apply D; exact Hj|]. split; [exact HH1|].
       split; [|apply IH; assumption].
       cbn [wcond_ok]. split; [exact PO|]. intros j Hj. apply in_map_iff in Hj. destruct Hj as [p [<- Hp]].
